@@ -548,13 +548,13 @@ def coq_extras(xs):
 
 
 def coq_prof(p):
-    return "(mkProf %s %s %s %s %s)" % tuple(_b(p[k]) for k in ("al_where", "al_group", "al_having", "al_order_nested", "zero_cols"))
+    return "(mkProf %s %s %s %s %s %s)" % tuple(_b(p.get(k, False)) for k in ("al_where", "al_group", "al_having", "al_order_nested", "zero_cols", "implicit_rec"))
 
 
 # ------------------------------------------------------------------------------------------------ mirror of Model/SqlScope.v
 
 OPEN = ((), True)
-STRICT = {"al_where": False, "al_group": False, "al_having": False, "al_order_nested": False, "zero_cols": False}
+STRICT = {"al_where": False, "al_group": False, "al_having": False, "al_order_nested": False, "zero_cols": False, "implicit_rec": False}
 
 
 def base_table(n, cols, opn):
@@ -729,7 +729,7 @@ def o_ctes(P, te, rc, ctes):
     for n, q in ctes:
         out.append(("OCteName", list(seen), n))
         r = out_query(te, q)
-        out += o_query(P, ([(n, r, "V")] + te) if rc else te, [], q)
+        out += o_query(P, ([(n, r, "V")] + te) if (rc or P.get("implicit_rec")) else te, [], q)
         te = [(n, r, "N")] + te
         seen = [n] + seen
     return out
@@ -1028,7 +1028,7 @@ def x_query(P, te, sc, q):
     te1 = te
     for n, cq in ctes:
         r = out_query(te1, cq)
-        out += x_query(P, ([(n, r, "V")] + te1) if rc else te1, [], cq)
+        out += x_query(P, ([(n, r, "V")] + te1) if (rc or P.get("implicit_rec")) else te1, [], cq)
         te1 = [(n, r, "N")] + te1
     te2 = env_ctes(te, ctes)
     out += x_setexpr(P, te2, sc, body)
